@@ -11,6 +11,7 @@
 package p34
 
 import (
+	"crypto/ed25519"
 	"encoding/hex"
 	"fmt"
 	"io"
@@ -581,7 +582,73 @@ func TestC34(t *testing.T) {
 		c.Violation(f.key, f.what, wit)
 	})
 
+	// The table as the Network drives it: seeds of a refresh (fallback nodes,
+	// no database) are force-added by the Network loop; the snapshot is taken
+	// on that loop.  The transport sends nothing, so no answer ever arrives.
+	r.Cases("network", r.N(400, 20000), func(c *ev.Case) {
+		rng := c.Rand
+		pub := ed25519.PublicKey(rng.Bytes(32))
+		w := &world{dist: map[dht.NodeID]int{}}
+		copy(w.self[:], pub)
+		nw, err := dht.VerifNewNetwork(pub, &net.UDPAddr{IP: net.IP{10, 0, 0, 1}, Port: 30303})
+		if err != nil {
+			c.Inconclusive("network not started: %v", err)
+			return
+		}
+		defer nw.Close()
+		overlap := map[dht.NodeID]string{}
+		rounds := rng.Range(1, 3)
+		for round := 0; round < rounds; round++ {
+			var nodes []*dht.Node
+			n := rng.Range(1, 40)
+			for i := 0; i < n; i++ {
+				var id dht.NodeID
+				switch {
+				case len(w.pop) > 0 && rng.Chance(1, 8):
+					id = w.pop[rng.Intn(len(w.pop))] // a node handed over before / twice in one list
+				case rng.Chance(1, 30):
+					id = w.self
+				default:
+					copy(id[:], rng.Bytes(32))
+				}
+				if _, ok := w.dist[id]; !ok && id != w.self {
+					w.pop = append(w.pop, id)
+					w.dist[id] = refLogDist(w.self, id)
+				}
+				port := uint16(rng.Range(1024, 65000))
+				nodes = append(nodes, dht.NewNode(id, net.IP{10, 0, byte(rng.Intn(250)), byte(1 + rng.Intn(250))}, port, port))
+			}
+			if err := nw.SetFallbackNodes(nodes); err != nil {
+				c.Inconclusive("fallback nodes refused: %v", err)
+				return
+			}
+			c.Count("network_fallback_nodes", int64(n))
+			s, ok := nw.VerifSnapshot()
+			if !ok {
+				c.Inconclusive("network closed before the snapshot")
+				return
+			}
+			c.Count("network_states_checked", 1)
+			entries := 0
+			for _, b := range s.Buckets {
+				entries += len(b.Entries)
+			}
+			c.Count("network_entries_seen", int64(entries))
+			if f := checkState(w, &s, "network-refresh", overlap); f != nil {
+				ids := []string{}
+				for _, nd := range nodes {
+					ids = append(ids, hex.EncodeToString(nd.ID[:]))
+				}
+				c.Violation(f.key, f.what, map[string]interface{}{"self": hex.EncodeToString(w.self[:]), "round": round,
+					"fallback_nodes": ids, "detail": f.detail})
+				return
+			}
+		}
+		c.Count("network_cases_completed", 1)
+	})
+
 	r.Floor("op_add", 50000)
+	r.Floor("network_entries_seen", 2000)
 	r.Floor("op_stuff", 15000)
 	r.Floor("op_delete", 30000)
 	r.Floor("op_deleteReplace", 40000)
